@@ -10,7 +10,7 @@ def lib_delivery(dialect, defs_dir, stream):
     seen = []
     def ds(packet):
         tb = struct.pack('<f', packet.time).hex() if packet.time == packet.time else 'nan'
-        seen.append('%d:%s:%s' % (packet.type, tb, packet.raw_data.getvalue().hex() or '-'))
+        seen.append('%d:%s:%s' % (packet.type, tb, packet.raw_data.read().hex() or '-'))      # what a handler reading the stream gets
         return None                      # nothing is processed: this run only observes the framing
     pl._deserialize_packet = ds
     pl._process_packet = lambda t, p: None
@@ -98,6 +98,43 @@ def insertion_test(ctx, label, play, stream, table_ids, every):
     return True
 
 
+def table_stability(ctx):
+    """the dialects' packet tables are module-level objects shared by every player of the process: constructing players (with their REAL
+    controllers, for versions on both sides of every special case) must leave them as the translator found them, and every player must hand
+    a packet of each type id to the class the table names (probe: a packet whose payload is one byte, which every class refuses)"""
+    from tools import battle
+    from replay_unpack.clients import wows, wot, wowp
+    from replay_unpack.core.network.net_packet import NetPacket
+    import io
+    tabs0, _ = gen_const.reflect_tables()
+    seq = []
+    wv = battle.wows_versions()
+    picks = [v for v in ('13_2_0', '12_7_0', '12_6_0', '12_5_0', wv[-1], wv[0], '12_7_0') if v in wv]
+    players = []
+    for v in picks:
+        players.append(('wows126' if tuple(map(int, v.split('_')[:3])) >= (12, 6, 0) else 'wows', 'wows ' + v, wows.ReplayPlayer(v.split('_')))); seq.append('wows ' + v)
+    for game, mod, vs in (('wot', wot, ['1_10_0', '1_8_0']), ('wowp', wowp, ['2_1_17', '1_7_5'])):
+        for v in vs:
+            try: players.append((game, '%s %s' % (game, v), mod.ReplayPlayer(v.split('_') if game == 'wowp' else v.replace('_', '.')))); seq.append('%s %s' % (game, v))
+            except Exception: pass
+    tabs1, _ = gen_const.reflect_tables()
+    ctx.case(('table-stability',))
+    changed = [(d, sorted(set(tabs0[d]) ^ set(tabs1[d]))) for d in tabs0 if tabs0[d] != tabs1[d]]
+    bad = None
+    for d, label, pl in players:
+        for tid, cname, _m in tabs0[d]:
+            pk = NetPacket(io.BytesIO(struct.pack('<IIf', 1, tid, 0.0) + b'\x00'))
+            try: obj = pl._deserialize_packet(pk); got = 'not handed to any class' if obj is None else type(obj).__name__
+            except Exception: got = 'handed to a class'
+            ctx.case(None); ctx.count('dispatch-probe')
+            if got == 'not handed to any class' and bad is None:
+                bad = dict(kind='mapped-packet-not-delivered', player=label, constructed_before=seq, packet_type=tid, table_names=cname,
+                           how='construct the listed players in this order in one process; then player._deserialize_packet(NetPacket of that type, 1-byte payload): '
+                               'the table names a class for this type, so the class must be constructed (and refuse the payload), not skipped as unknown')
+    ctx.obligation('the packet tables survive the construction of players (same tables before and after: %s)' % ', '.join(seq), not changed, str(changed)[:600])
+    if bad: ctx.violation(bad)
+
+
 def run(ctx):
     ctx.rule = ('(a) generated byte streams (payload 0..64KiB, type ids from all tables +-1 and extremes, NaN/inf/denormal times, every cut offset, '
                 'stray tail bytes, oversized length field): packets handed to the dialect vs the extracted framer; (b) generated histories incl. '
@@ -107,6 +144,7 @@ def run(ctx):
     gen_const.instance_obligations(ctx, 'C02', which=('tables',))
     q = ctx.tier == 'quick'
     rng = ctx.rng
+    table_stability(ctx)
     ds = synth.gen_defset(rng); d = synth.write_defset(ds, rng)
     try:
         streams = gen_streams(ctx, 400 if q else 6000)
@@ -117,14 +155,23 @@ def run(ctx):
             got = lib_delivery(dialect, d, st)
             ctx.case(st if (m.count(' ') >= 2 or not m.startswith('clean')) else None)
             ctx.count('framing:' + m.split(' ')[0])
-            if got != m and bad is None: bad = (dialect, st, got, m)
+            if got != m and bad is None: bad = (dialect, st, got, m, False)
+        # the same with the library's logging really on (every record formatted): what is delivered must not depend on the log level
+        for i in range(0, len(streams), 9):
+            dialect = ('wows', 'wows126', 'wot', 'wowp')[i % 4]
+            with common.debug_logging(): got = lib_delivery(dialect, d, streams[i])
+            ctx.case(None); ctx.count('framing:with-debug-logging')
+            if got != model[i] and bad is None: bad = (dialect, streams[i], got, model[i], True)
         ctx.traces_validated += len(streams)
         ctx.sample(dict(stream=streams[3].hex()[:200], delivered=model[3][:300]))
         ctx.obligation('correspondence: packets delivered by PlayerBase.play = extracted frames on %d generated streams' % len(streams), bad is None)
         if bad:
-            dialect, st, got, m = bad
+            dialect, st, got, m, with_debug = bad
+            def deliver(s):
+                if not with_debug: return lib_delivery(dialect, d, s)
+                with common.debug_logging(): return lib_delivery(dialect, d, s)
             # shrink: drop whole leading packets / trailing bytes while the disagreement persists
-            def differs(s): return lib_delivery(dialect, d, s) != model_delivery([s])[0]
+            def differs(s): return deliver(s) != model_delivery([s])[0]
             parts = split_stream(st)
             changed = True
             while changed and len(parts) > 1:
@@ -133,8 +180,9 @@ def run(ctx):
                     cand = parts[:i] + parts[i + 1:]
                     if differs(b''.join(cand)): parts = cand; changed = True; break
             st = b''.join(parts)
-            ctx.violation(dict(kind='framing', dialect=dialect, stream=st.hex(), implementation=lib_delivery(dialect, d, st), expected=model_delivery([st])[0],
-                               how='subclass of the dialect ReplayPlayer overriding _deserialize_packet/_process_packet, play(stream, strict)'))
+            ctx.violation(dict(kind='framing', dialect=dialect, stream=st.hex(), implementation=deliver(st), expected=model_delivery([st])[0], logging_at_debug=with_debug,
+                               how='subclass of the dialect ReplayPlayer overriding _deserialize_packet/_process_packet (the handler reads packet.raw_data), play(stream, strict)'
+                                   + ('; with the root logger at DEBUG and a handler attached (tools/common.debug_logging), as with --log_level DEBUG' if with_debug else '')))
         # (c) insertion into synthetic streams
         for k in range(6 if q else 40):
             dialect = ('wows', 'wows126', 'wot', 'wowp')[k % 4]
